@@ -1117,3 +1117,58 @@ def r_epoch_persist(prog, rep):
     w = cfg.path_exists(f, cfg.pos_of(f, ex[0]), cfg.is_exit, avoid=lambda p, e, tp=cfg.term_pos(f, gblk.id) if gblk else None: p == tp)
     r.check(w is None, "build|no-exit-between-work-and-epoch-write", "", "build() can return between the work loop and the epoch write", f)
 
+
+
+def r_state_order(prog, rep):
+    r = rep.rule("R-STATE-ORDER", "RuleInfo::isScanned relies on the numeric order of the state enumerators (scanned == past IsScanning): the order is frozen, and "
+                                  "the helpers test the states they are named after", floor=6)
+    e = prog.enum("RuleInfo::StateKind")
+    names = [x["n"] for x in sorted(e["enumerators"], key=lambda x: x["v"])]
+    want = ["Incomplete", "IsScanning", "NeedsToRun", "DoesNotNeedToRun", "InProgressWaiting", "InProgressComputing", "Complete"]
+    r.check(names == want, "StateKind|order", "", "state enumerators are ordered %s" % names)
+    helpers = {"isScanning": {"IsScanning"}, "isInProgressWaiting": {"InProgressWaiting"}, "isInProgressComputing": {"InProgressComputing"}}
+    for h, states in helpers.items():
+        f = prog.fn("RuleInfo::" + h)
+        ret = [n for n in f.nodes if n.get("k") == "return"]
+        got = set(x.get("n") for x in ret[0].walk() if x.get("k") == "ref" and x.get("dk") == "enumconst") if ret else set()
+        ok = got == states and any(n.get("k") == "bin" and n["op"] == "==" for n in f.nodes)
+        r.check(ok, "RuleInfo::%s|tests-own-state" % h, "", "%s tests %s" % (h, sorted(got)), f)
+    f = prog.fn("RuleInfo::isInProgress")
+    calls = set((c.get("fn") or "").split("::")[-1] for c in f.calls())
+    r.check(calls == {"isInProgressWaiting", "isInProgressComputing"} and any(n.get("k") == "bin" and n["op"] == "||" for n in f.nodes), "RuleInfo::isInProgress|either", "",
+            "isInProgress is not (waiting || computing)", f)
+    f = prog.fn("RuleInfo::isScanned")
+    cmpn = [n for n in f.nodes if n.get("k") == "bin" and n["op"] in (">", "<", ">=", "<=")]
+    ok = len(cmpn) == 1 and canon(cmpn[0]) in ("(cast<int>(IsScanning) < cast<int>(state))", "(IsScanning < state)") or \
+        (len(cmpn) == 1 and "IsScanning" in expr_str(cmpn[0]) and "state" in expr_str(cmpn[0]) and
+         ((cmpn[0]["op"] == ">" and "state" in expr_str(cmpn[0].child("l"))) or (cmpn[0]["op"] == "<" and "state" in expr_str(cmpn[0].child("r")))))
+    r.check(ok, "RuleInfo::isScanned|past-scanning", "", "isScanned is not `state > IsScanning`", f)
+    bf = BranchFacts(f, kill="assign")
+    rc = f.calls("RuleInfo::isComplete")
+    r.check(len(rc) == 1 and has(facts_at(bf, rc[0]), "Complete", True, ("==",)), "RuleInfo::isScanned|complete-means-this-epoch", "",
+            "a Complete rule is considered scanned without checking its epoch", f)
+
+
+def r_discovered_demanded(prog, rep):
+    r = rep.rule("R-DISCOVERED-DEMANDED", "every discovered dependency of a finished task is demanded in the same build (a task-less input request per dependency, "
+                                          "queued under the request mutex), so its rule is brought up to date before dependents compare epochs", floor=2)
+    f = efn(prog, "executeTasks")
+    loops = [n for n in f.nodes if n.get("k") == "forrange" and "discoveredDependencies" in expr_str(n.child("range"))]
+    ok = len(loops) == 1
+    if ok:
+        lp = loops[0]
+        pb = [c for c in f.calls("push_back") if expr_str(c.child("obj")) == "inputRequests" and any(x is c for x in lp.walk())]
+        ok = len(pb) == 1
+        if ok:
+            il = [x for x in arg_nodes(pb[0])[0].walk() if x.get("k") == "initlist"]
+            vals = [expr_str(core(x)) for x in arg_nodes(il[0])] if il else []
+            ls = LockSets(f)
+            ok = len(vals) >= 6 and vals[0] == "nullptr" and "getRuleInfoForKey(" in vals[2] and "dependency.keyID" in vals[2] and vals[3] == "dependency.orderOnly" and \
+                vals[5] == "dependency.singleUse" and "inputRequestsMutex" in (ls.held_at_node(pb[0]) or set()) and \
+                not any(x.get("k") in ("break", "continue", "return") for x in lp.child("body").walk())
+    r.check(ok, "executeTasks|discovered-dependencies-demanded", "", "discovered dependencies are not all demanded in the build that discovered them", f)
+    # single-use / order-only flags of a discovered dependency: recorded as given
+    g = efn(prog, "taskDiscoveredDependency")
+    pb = g.calls("DependencyKeyIDs::push_back")
+    ok = len(pb) == 1 and [expr_str(core(x)) for x in arg_nodes(pb[0])][1:] == ["false", "false"]
+    r.check(ok, "taskDiscoveredDependency|plain-dependency", "", "a discovered dependency is recorded as order-only / single-use", g)
